@@ -241,6 +241,14 @@ def genTabStmt (i : Nat) : G (Stmt × String) := do
     for _ in [0:20] do
       if kfC16 s = "" then break
       s ← genC16Stmt true
+    if (i / 5) % 2 = 1 then
+      -- … also inside a nested statement
+      let mut inner ← genC16Stmt false
+      for _ in [0:20] do
+        if kfC16 inner = "" then break
+        inner ← genC16Stmt false
+      if kfC16 inner = "" && kfC16 s = "" then
+        return (Stmt.mk (s.parts ++ [Part.nested { sym := Sym.Cac } inner]), "private-nested")
     pure (s, "private")
   | 0 => do let s ← genC01 { suffixes := false, maxDepth := 3, maxComps := 4 }; pure (s, "simple")
   | 1 => do let s ← genSupC02 2; pure (s, "nested")
@@ -316,6 +324,7 @@ def genTabFamily (tagp : String) (tier : String) (seed : Nat) (both : Bool) : Ar
     if rowBound s > 256 then continue
     let (id, rng'') := pickA idPoolTab rng
     rng := rng''
+    let kfExtra := if kfExtra = "" && both && kind = "private-nested" then "C19-core-text-omits-private-properties-of-nested-statement" else kfExtra
     let kf := if kfExtra ≠ "" then kfExtra
       else if tagp = "c04" && wandBelowRoot s then "C04-wand-inside-combination"
       else if supported s then "" else "C02-regex-shape"
